@@ -68,8 +68,34 @@ class Tree:
         write(os.path.join(self.root, "ORDER"), "\n".join(names) + "\n")
 
 
+DESKTOPS = ["no-DISPLAY", "nobody-on-the-display", "user-on-the-display", "user-on-the-display-notify-send-fails", "who-fails", "who-prints-nothing"]
+
+
+def desktop_env(work, variant, path):
+    """The desktop-session situations fan2go's error notifications meet (ui.NotifySend: DISPLAY, `who`, `id -u`,
+    `sudo -u <user> ... notify-send`); fake commands first in PATH."""
+    if variant == "no-DISPLAY":
+        return {}
+    b = os.path.join(work, "fakebin")
+    os.makedirs(b, exist_ok=True)
+
+    def script(name, body):
+        write(os.path.join(b, name), "#!/bin/sh\n" + body + "\n", 0o755)
+    if variant == "nobody-on-the-display":
+        script("who", "echo 'alice    pts/0        2026-10-03 10:05 (192.168.1.7)'")
+    elif variant.startswith("user-on-the-display"):
+        script("who", "echo 'alice    pts/0        2026-10-03 10:05 (192.168.1.7)'; echo 'bob      :0           2026-10-03 09:00 (:0)'")
+        script("id", "echo 1000")
+        script("sudo", "exit 0" if variant == "user-on-the-display" else "echo 'cannot connect to the session bus' >&2; exit 1")
+    elif variant == "who-fails":
+        script("who", "exit 1")
+    elif variant == "who-prints-nothing":
+        script("who", "true")
+    return {"DISPLAY": ":0", "PATH": b + ":" + path}
+
+
 class Daemon:
-    def __init__(self, binary, work, config_text, tree_root, driver=None, timescale=20, gorace=None, args=None, name="daemon"):
+    def __init__(self, binary, work, config_text, tree_root, driver=None, timescale=20, gorace=None, args=None, name="daemon", desktop=None):
         self.work = work
         self.cfg = os.path.join(work, name + ".yaml")
         write(self.cfg, config_text)
@@ -81,6 +107,8 @@ class Daemon:
         env["FAN2GO_VERIF_TIMESCALE"] = str(timescale)
         env["HOME"] = work
         env["FAN2GO_VERIF_SCRATCH_DIR"] = work
+        if desktop:
+            env.update(desktop_env(work, desktop, env.get("PATH", "")))
         self.evlog = None
         if driver is not None:
             self.evlog = os.path.join(work, name + ".events")
